@@ -243,7 +243,7 @@ theorem visit_nc (env : Env) (mn : Str) : ∀ (n : Node) (s : St), okNode n = tr
     exact nc_bind (visitList_nc env mn keys s h.1) (fun s => visitList_nc env mn vals s h.2)
   | .delete targets, s, h => by
     rw [visit]; simp only [okNode, Bool.and_eq_true] at h
-    exact nc_bind (nc_removeIdentifiersL targets s h.1) (fun s => visitList_nc env mn targets s h.2)
+    exact nc_bind (visitList_nc env mn targets s h.2) (fun s => nc_removeIdentifiersL targets s h.1)
   | .forLoop t iter body orelse, s, h => by
     rw [visit]; simp only [okNode, Bool.and_eq_true] at h
     exact nc_bind (nc_addIdentifiers h.1.1.1.1) (fun s => nc_bind (visit_nc env mn t s h.1.1.1.2)
